@@ -22,7 +22,7 @@ for p in props:
         "engine": "lean-proof+correspondence",
         "level_claimed": {"category": c.get("category", "proof"), "text": c["level_text"], "design_ref": c.get("design_ref", f"DESIGN.md section 5, {pid}")},
         "level_note": c["level_note"],
-        "technique": c.get("technique", "Lean 4 theorems over a hand-written executable model; model tied to /repo by a differential correspondence run (real Go code vs. compiled Lean model) on every check"),
+        "technique": c.get("technique", "Lean 4 theorems over a hand-written executable model; model tied to /repo on every check by (1) a differential correspondence run (real Go code vs. compiled Lean model on generated inputs, Phi judged on every implementation observation) and (2) for the source's literal tables a go/ast translator (factgen) whose output the tie theorems Props/Tie*.lean compare with the model"),
     })
 m = {
     "version": 1,
